@@ -449,7 +449,14 @@ class Samples(BaseSamples):
             x is not None
             for x in [self.log_likelihood, self.log_prior, self.log_q]
         ):
+            # Keep an evidence that was explicitly attached (e.g. carried by a
+            # selection) instead of silently recomputing it from the subset.
+            attached = (self.log_evidence, self.log_evidence_error)
             self.compute_weights()
+            if attached[0] is not None:
+                self.log_evidence = attached[0]
+                if attached[1] is not None:
+                    self.log_evidence_error = attached[1]
         else:
             self.log_w = None
             self.weights = None
